@@ -6,7 +6,7 @@
    has to hold for results taken from the cache too, so the cache invariant [cache_ge] is
    threaded along. *)
 From Coq Require Import String List NArith Bool Arith Lia.
-From Parsley Require Import Obs Base Grammar Engine EngineFacts SetMapFacts.
+From Parsley Require Import Obs Base Grammar Engine TermFacts EngineFacts SetMapFacts.
 Import ListNotations.
 Open Scope N_scope.
 
@@ -264,16 +264,30 @@ Section Act.
     Proof.
       intros e c stk lrc pos ns cp err c' Hc H. destruct e; cbn [parse_step] in H.
       - (* PTerm *)
-        destruct t as [ch]. cbn [term_parse] in H.
         assert (G : forall x, cache_ge x -> (Inv stk lrc pos -> bodies_ok c -> bodies_ok x) ->
                     all_ge pos ns -> cache_ge x /\ all_ge pos ns /\ (Inv stk lrc pos -> bodies_ok c -> bodies_ok x))
           by (intros x A B C; split; [exact A|split; [exact C|exact B]]).
-        destruct (byte_at inp pos) as [b|].
-        + destruct (b =? ch).
-          * injection H as <- _ _ <-. apply G; [exact Hc|intros _ Hb; exact Hb|].
-            intros n [E|[]]. subst n. cbn [node_ge node_rpos]. split; [lia|exact I].
+        destruct t as [ch|l].
+        + (* a rune *)
+          cbn [term_parse] in H.
+          destruct (byte_at inp pos) as [b|].
+          * destruct (b =? ch).
+            -- injection H as <- _ _ <-. apply G; [exact Hc|intros _ Hb; exact Hb|].
+               intros n [E|[]]. subst n. cbn [node_ge node_rpos]. split; [lia|exact I].
+            -- injection H as <- _ _ <-. apply G; [exact Hc|intros _ Hb; exact Hb|apply all_ge_nil].
           * injection H as <- _ _ <-. apply G; [exact Hc|intros _ Hb; exact Hb|apply all_ge_nil].
-        + injection H as <- _ _ <-. apply G; [exact Hc|intros _ Hb; exact Hb|apply all_ge_nil].
+        + (* a literal parser: no node, or one leaf that starts here and does not end before (TermFacts) *)
+          destruct (term_parse inp (TLit l) pos) as [res terr] eqn:Et.
+          destruct (term_parse_cases _ _ _ _ _ Et) as [->|(n0 & -> & ->)].
+          * assert (Hx : cache_ge (match terr with Some e => log_fail c pos (ecause e) | None => c end))
+              by (destruct terr; exact Hc).
+            assert (Hy : Inv stk lrc pos -> bodies_ok c ->
+                         bodies_ok (match terr with Some e => log_fail c pos (ecause e) | None => c end))
+              by (destruct terr; intros _ Hb; exact Hb).
+            injection H as <- _ _ <-. apply G; [exact Hx|exact Hy|apply all_ge_nil].
+          * apply term_parse_lit_node in Et. destruct Et as (_ & tok & v & r & -> & _ & Hle & _ & _).
+            injection H as <- _ _ <-. apply G; [exact Hc|intros _ Hb; exact Hb|].
+            intros n [E|[]]. subst n. cbn [node_ge node_rpos]. split; [exact Hle|exact I].
       - (* PEmpty *)
         injection H as <- _ _ <-. split; [exact Hc|]. split; [|intros _ Hb; exact Hb].
         intros n [E|[]]. subst n. apply node_ge_empty.
@@ -486,7 +500,7 @@ End Act.
 Definition ex_rules : list pexpr :=
   [PMemo 1 (PAny [PSeq SeqOf INone false None [POpt (PTerm (TRune 120)); PRef 0; PTerm (TRune 98)];
                   PTerm (TRune 97)])].
-Definition ex_inp : input := {| i_data := [120; 97; 98]; i_offset := 0 |}.
+Definition ex_inp : input := mk_input [120; 97; 98] 0.
 (* per logged body execution: (index, position, activations, remaining + 2) *)
 Definition ex_log (fuel : nat) : list (N * N * N * N) :=
   match run ex_inp ex_rules fuel (PRef 0) with
